@@ -31,7 +31,9 @@ Definition ptr_evarr := option unit.
 Record cring := mk_cring { r_head : Z; r_tail : Z; r_size : Z; r_ev : list ptr_ev }.
 Record csp := mk_csp { sp_bad0 : ptr_ev; sp_next : ptr_ev; sp_fd : Z }.
 Record wstate_c := mk_wc { file : list ev; ring : cring; plan : csp; scratch : list ev }.
-Definition wenv := unit.
+(* the environment of a per-event step: the event stream_step has just delivered (stream_ev(stream)) *)
+Definition wenv := ptr_ev.
+Definition ptr_stream := option unit.
 
 Definition E_FAIL := 20%nat.
 Definition E_DIE := 21%nat.
@@ -86,6 +88,7 @@ Definition get_ovni_ev_header_clock (sx : wenv) (st : wstate_c) (p : ptr_ev) : Z
 Definition get_ovni_ev_header_model (sx : wenv) (st : wstate_c) (p : ptr_ev) : Z := emodel (ev_at st p).
 Definition get_ovni_ev_header_category (sx : wenv) (st : wstate_c) (p : ptr_ev) : Z := ecat (ev_at st p).
 Definition get_ovni_ev_header_value (sx : wenv) (st : wstate_c) (p : ptr_ev) : Z := evalue (ev_at st p).
+Definition ovni_ev_get_clock (sx : wenv) (st : wstate_c) (p : ptr_ev) : Z := clock (ev_at st p).   (* ovni.c: return ev->header.clock *)
 Definition ptr_addr (sx : wenv) (st : wstate_c) (p : ptr_ev) : Z :=
   match p with Some k => total_size (firstn k (file st)) | None => 0 end.
 Definition ix_ptr_ev (l : list ptr_ev) (i : Z) : ptr_ev := nth (Z.to_nat i) l None.
@@ -118,6 +121,15 @@ Definition get_sortplan_base (sx : wenv) (st : wstate_c) (p : ptr_sortplan) : pt
 Definition get_sortplan_r (sx : wenv) (st : wstate_c) (p : ptr_sortplan) : ptr_ring := Some tt.
 Definition get_sortplan_r_ev (sx : wenv) (st : wstate_c) (p : ptr_sortplan) : list ptr_ev := r_ev (ring st).
 Definition get_sortplan_bad0_header_clock (sx : wenv) (st : wstate_c) (p : ptr_sortplan) : Z := clock (ev_at st (sp_bad0 (plan st))).
+
+Definition sp_local : ptr_sortplan := Some tt.      (* `struct sortplan sp` of stream_winsort: the one plan of the state *)
+Definition putsp (p : ptr_sortplan) (f : csp -> csp) : M unit :=
+  fun sx st => match p with Some _ => Done tt (mk_wc (file st) (ring st) (f (plan st)) (scratch st)) | None => Fail E_TRAP end.
+Definition set_sortplan_bad0 (p : ptr_sortplan) (v : wenv -> wstate_c -> ptr_ev) : M unit :=
+  fun sx st => putsp p (fun c => mk_csp (v sx st) (sp_next c) (sp_fd c)) sx st.
+Definition set_sortplan_next (p : ptr_sortplan) (v : wenv -> wstate_c -> ptr_ev) : M unit :=
+  fun sx st => putsp p (fun c => mk_csp (sp_bad0 c) (v sx st) (sp_fd c)) sx st.
+Definition stream_ev (sx : wenv) (st : wstate_c) (s : ptr_stream) : ptr_ev := sx.
 
 (* ------------------------------------------------------------------ primitives of execute_sort_plan *)
 Definition idx (p : ptr_ev) : nat := match p with Some k => k | None => O end.
@@ -171,3 +183,63 @@ Definition rebuild_ring (r : ptr_ring) (start : Z) (first last : ptr_ev) : M uni
                  end
                | _, _, _ => Fail E_TRAP
                end.
+
+(* ------------------------------------------------------------------ stream_winsort around its translated body *)
+(* `while ((ret = stream_step(stream)) == 0) body`: stream_step delivers the events of the file one after the
+   other (C19: the cursor advances by the size of each event), so the loop is the fold of the TRANSLATED body over
+   the event indices 0, 1, ...; the body reads the delivered event through stream_ev.  ring_reset runs first;
+   what follows the loop (status of stream_step, fdatasync, close) touches neither the file nor the ring. *)
+Definition run_step {C} (body : ptr_stream -> ptr_ring -> C -> M (lres C)) (acc : res C) (k : nat) : res C :=
+  match acc with
+  | Fail e => Fail e
+  | Done c st =>
+    match body (Some tt) (Some tt) c (Some k) st with
+    | Done (LCont c') st' => Done c' st'
+    | Done (LRet _) _ => Fail E_TRAP
+    | Fail x => Fail x
+    end
+  end.
+
+Definition winsort_state0 (n : nat) (evs : list ev) : wstate_c :=
+  mk_wc evs (mk_cring 0 0 (Z.of_nat n) (repeat None n)) (mk_csp None None 3) [].
+
+(* ovnisort -n n on one non-empty stream: Some file' = exit status 0 *)
+Definition run_winsort {C} (reset : ptr_ring -> M unit) (body : ptr_stream -> ptr_ring -> C -> M (lres C)) (init : C)
+           (n : nat) (evs : list ev) : option (list ev) :=
+  match reset (Some tt) None (winsort_state0 n evs) with
+  | Fail _ => None
+  | Done _ st1 =>
+    match fold_left (run_step body) (seq 0 (length evs)) (Done init st1) with
+    | Done _ st => Some (file st)
+    | Fail _ => None
+    end
+  end.
+
+(* ------------------------------------------------------------------ stream_check (-c) around its translated parts *)
+(* int ret = stream_step(stream) delivers event 0 (a stream without events is inactive and skipped by process_trace);
+   stream_check_init; then the fold of the translated loop body over the events 1, 2, ...; then stream_check_end *)
+Definition run_cstep {C} (body : ptr_stream -> C -> M (lres C)) (acc : res C) (k : nat) : res C :=
+  match acc with
+  | Fail e => Fail e
+  | Done c st =>
+    match body (Some tt) c (Some k) st with
+    | Done (LCont c') st' => Done c' st'
+    | Done (LRet _) _ => Fail E_TRAP
+    | Fail x => Fail x
+    end
+  end.
+
+Definition run_check {C} (init : ptr_stream -> M (lres C)) (body : ptr_stream -> C -> M (lres C)) (fin : C -> M unit)
+           (evs : list ev) : bool :=
+  match evs with
+  | [] => true
+  | _ =>
+    match init (Some tt) (Some O) (winsort_state0 1 evs) with
+    | Done (LCont c0) st1 =>
+      match fold_left (run_cstep body) (seq 1 (length evs - 1)) (Done c0 st1) with
+      | Done c st => match fin c None st with Done _ _ => true | Fail _ => false end
+      | Fail _ => false
+      end
+    | _ => false
+    end
+  end.
